@@ -215,6 +215,25 @@ structure TextLib.Lawful (lib : TextLib F) : Prop where
       isFinite y = true ∧ lib.fmtFloat pos y = lib.fmtFloat pos x ∧ SnapFix scale y
 
 mutual
+/-- the grid law at the limits of every scaled leaf: the limits travel in the description as grid indices
+(`round(min / scale)`, `round(max / scale)`) and come back as `index * scale`; those snapped limits are values the grid
+reproduces (`round(lo / scale) * scale == lo`).  Then the rebuilt type has the same value set as the node's. -/
+def LimitsOnGrid : DType F → Prop
+  | .scaled scale min max _ _ =>
+    (∀ lo, snap scale min = some lo → SnapFix scale lo) ∧ (∀ hi, snap scale max = some hi → SnapFix scale hi)
+  | .array e _ _ => LimitsOnGrid e
+  | .tuple es => LimitsOnGridList es
+  | .struct ms _ _ => LimitsOnGridFields ms
+  | _ => True
+def LimitsOnGridList : List (DType F) → Prop
+  | [] => True
+  | t :: ts => LimitsOnGrid t ∧ LimitsOnGridList ts
+def LimitsOnGridFields : List (String × DType F) → Prop
+  | [] => True
+  | (_, t) :: ts => LimitsOnGrid t ∧ LimitsOnGridFields ts
+end
+
+mutual
 /-- every struct of a *node-side* type (`client = false`) is given with all its members: `from_string`
 converts with `__call__`, which asks for the optional members too unless the type is a client's -/
 def TextComplete : DType F → PVal F → Prop
